@@ -12,6 +12,7 @@ import sys
 
 from . import canon, gen, simfs
 from .core import BudgetExceeded, rng, sunk_stdout, repo as get_repo
+from .minimise import ddmin
 from .intr import Tracer, ORDERS, unraisable_counter, exc_info_in_tree
 
 SIM_PATH = '/simfs/ballots.blt'
@@ -277,7 +278,7 @@ def run_faulted(R, text, options, event, k, mech, order, driver='api', flags=Non
             res.update(status='interrupted', main_exc=type(exc).__name__, msg=str(exc)[:200], frame=frame,
                        line_text=line_text)
             return res
-        marked = isinstance(out, str) and 'interrupt' in out.lower()
+        marked = isinstance(out, str) and 'interrupt' in out.lower() and bool(getattr(E, 'intr_logged', False))
         if not marked and E is not None and not getattr(E, 'intr_logged', False):
             if unr.n:
                 # the interpreter swallowed the interrupt (generator finalisation); the count completed
@@ -357,7 +358,10 @@ def check(ref, res):
         if not isinstance(txt, str):
             v.append(dict(cls='render-invalid', what=r['name'], msg='not a string: %s' % type(txt).__name__))
             continue
-        marked = 'interrupt' in txt.lower()     # any wording of a banner; or a logged marker entry (below)
+        # a banner in any wording that mentions the interrupt -- on a line the uninterrupted rendering does not
+        # have (a candidate called "Uninterrupted Service" marks nothing); or a logged marker entry (below)
+        ref_lines = set(ref['rend'][r['name']].split('\n')) if r['name'] in ref['rend'] else set()
+        marked = any('interrupt' in ln.lower() and ln not in ref_lines for ln in txt.split('\n'))
         if r['name'] == 'report':
             a0 = _report_action_lines(ref['rend']['report'])
             a1 = _report_action_lines(txt)
@@ -366,7 +370,7 @@ def check(ref, res):
                 extra = [ln for ln in rest1 if ln != '']
                 if any(ln in marker_lines for ln in extra):
                     marked = True
-                bad = [ln for ln in extra if ln not in marker_lines and 'interrupt' not in ln.lower()]
+                bad = [ln for ln in extra if ln not in marker_lines]
                 if bad:
                     v.append(dict(cls='render-not-prefix', what='report', index=jj, got=bad[0][:200],
                                   want=a0[jj][:200] if jj < len(a0) else None))
@@ -411,7 +415,11 @@ def check(ref, res):
         if not isinstance(out, str):
             v.append(dict(cls='main-diverges', what='main', msg='main returned %s' % type(out).__name__))
         else:
-            if 'interrupt' not in out.lower() and not any(m and m in out for m in marker_msgs):
+            ref_all = set()
+            for t in ref['rend'].values():
+                ref_all.update(t.split('\n'))
+            if not any('interrupt' in ln.lower() and ln not in ref_all for ln in out.split('\n')) \
+                    and not any(m and m in out for m in marker_msgs):
                 v.append(dict(cls='not-marked', what='main', msg='main output lacks any interruption mark'))
             if not any('exc' in r for r in res['renderings']):
                 exp = "".join(r['text'] for r in res['renderings'])
@@ -880,7 +888,6 @@ def minimise(R, seed, viol, tier, budget_tests=60):
 
     Runs in a forked child.  Returns (replay object).  Deterministic.
     """
-    from .minimise import ddmin     # pylint: disable=import-outside-toplevel
     signal.signal(signal.SIGINT, signal.default_int_handler)
     idx = viol['idx']
     e, o, text, raw, _ = make_case(seed, idx, tier)
